@@ -40,7 +40,21 @@ class C21(FlowCheck):
         demo = [L(10), ['OEG', 100], L(20), ['P', 1], ['ERR', 5], ['P', 2], L(30), ['P', 3], ['END'],
                 L(100), ['IF', ['=', V(7), 0], None], ['=', 7, 1], ['ERR', 6],
                 L(110), ['P', 'ERR'], ['P', 'ERL'], ['RES', 'N']]
+        rd = [L(10), ['OEG', 900], L(20), ['RD', [0, 1]], ['P', V(0)], L(30), ['RD', [2]], ['P', V(2)], L(40), ['END'],
+              L(450), ['DT', [7, 99999]], L(460), ['DT', [5]]] + H + [['RES', 'N']]
         return [
+            # READ: Overflow of the assignment / Out of DATA belong to the READ line, not to the DATA line (seed C21e)
+            flat(rd),
+            flat([L(10), ['RD', [0]], L(20), ['END'], L(450), ['DT', [99999]]]),
+            flat([L(10), ['OEG', 900], L(20), ['RD', [0]], ['RS', None], ['RD', [1, 2]], ['P', V(2)], L(40), ['END'],
+                  L(450), ['DT', [1]]] + H + [['RES', 'N']]),
+            flat([L(10), ['DT', [40000]], ['RD', [0]], L(20), ['P', 1]]),
+            flat([L(450), ['DT', [3, -40000]]], [['RD', [0, 1]], ['P', V(0)]]),
+            # RUN resets the switch that makes math errors hard (D23e): soft in both runs, trapped from the prompt
+            {'k': 'flat', 'prog': [L(10), ['P', ['\\', 1, V(0)]], ['OEG', 900], ['END'], L(900), ['P', 'ERR'], ['RES', 'N']],
+             'cmds': [None, None, [['P', ['\\', -1, 0]], ['P', 5]], None]},
+            {'k': 'flat', 'prog': [L(10), ['OEG', 900], L(20), ['END'], L(900), ['RES', 'N']],
+             'cmds': [None, [['OEG', 0], ['P', ['\\', 7, 0]], ['P', 5]]]},
             {'k': 'flat', 'prog': demo, 'cmds': [None, [['G', 10]]]},
             {'k': 'flat', 'prog': demo, 'cmds': [None, [['ERR', 8], ['P', 9]], [['P', 'ERR'], ['P', 'ERL']]]},
             {'k': 'flat', 'prog': [L(10), ['OEG', 100], L(20), ['ERR', 5], ['P', 2], L(30), ['END'],
